@@ -116,6 +116,10 @@ type Sim struct {
 	Phase string // setup | chaos | heal | probe
 	// OnlyPrefix, if set, restricts reported violations to signatures with this prefix.
 	OnlyPrefix string
+	// NotePrefixes: violations with these signature prefixes do not end the run
+	// (they are collected in Noted and reported with the others).
+	NotePrefixes []string
+	Noted        []*Violation
 
 	mu       sync.Mutex
 	pending  []*Request
@@ -181,8 +185,17 @@ func (s *Sim) Violate(sig, detail string) {
 		s.Probes["other-property-oracle-fired/"+strings.SplitN(sig, "/", 2)[0]]++
 		return
 	}
-	for _, v := range s.Violations {
+	for _, v := range append(append([]*Violation(nil), s.Violations...), s.Noted...) {
 		if v.Signature == sig {
+			return
+		}
+	}
+	for _, p := range s.NotePrefixes {
+		if strings.HasPrefix(sig, p) {
+			// reported like any violation, but the run goes on: the rest of
+			// the run keeps being judged by the other oracles
+			s.Noted = append(s.Noted, &Violation{Signature: sig, Detail: detail, Step: s.Step})
+			s.Logf("VIOLATION %s: %s", sig, detail)
 			return
 		}
 	}
